@@ -4,6 +4,9 @@ import Driver.Util
 
   `C20 load <strict 0|1> <permit 0|1> <dv|fp> <cfg> <records>`      current logic
   `C20 loadorig <strict 0|1> <permit 0|1> <dv|fp> <cfg> <records>`  pinned (pre-fix) strict order
+  `C20 read <strict 0|1> <permit 0|1> <dv|fp> <cfg> <records> <x,y> <slicers>`   sliced reads `dataobj[slicer]`
+       slicers = `|`-separated; a slicer = `;`-separated items `e` (Ellipsis) | `i<int>` | `s<a>,<b>,<c>` (`_` = None)
+       output  = `ok r=<res>|<res>|…`, <res> = `[slab ids]` or `ERR:<class>`
   `C20 volnos <slices>`    `vol_numbers`
   `C20 isfull <smax> <slices>`   `vol_is_full`
 
@@ -49,6 +52,35 @@ def showLabels (l : List (String × List Int)) : String :=
 def showErr : Err → String
   | .parrec => "ERR:PARRECError"
   | .value => "ERR:ValueError"
+  | .index => "ERR:IndexError"
+
+def parseItem? (s : String) : Option Item :=
+  if s = "e" then some .ellipsis
+  else if s.startsWith "i" then (s.drop 1).toString.toInt?.map Item.int
+  else if s.startsWith "s" then
+    match ((s.drop 1).toString.splitOn ",").mapM parseOptInt? with
+    | some [a, b, c] => if c = some 0 then none else some (.slice ⟨a, b, c⟩)
+    | _ => none
+  else none
+
+/-- a slicer: at least one item, at most one Ellipsis -/
+def parseSlicer? (s : String) : Option (List Item) :=
+  match (s.splitOn ";").mapM parseItem? with
+  | some its => if its.isEmpty || (its.filter (· == .ellipsis)).length > 1 then none else some its
+  | none => none
+
+def runRead (st pe sc cfg recs xy sls : String) : String :=
+  match parseBool? st, parseBool? pe, parseScaling? sc, parseCfg? cfg, parseRecs? recs,
+        parseNatList? xy, (sls.splitOn "|").mapM parseSlicer? with
+  | some st, some pe, some sc, some cfg, some recs, some [x, y], some sls =>
+      if sc = .fp && recs.any (fun r => r.rs == 0 || r.ss == 0) then "bad-op"
+      else match load cfg pe st sc false recs with
+        | .ok o => "ok r=" ++ "|".intercalate (sls.map fun sl =>
+            match readPartial o (x, y) sl with
+            | .ok l => showList l
+            | .error e => showErr e)
+        | .error e => showErr e
+  | _, _, _, _, _, _, _ => "bad-op"
 
 def showOut (o : Out) : String :=
   "ok shape=" ++ showList o.shape ++ " idx=" ++ showList o.idx ++ " data=" ++ showList o.data ++
@@ -67,6 +99,7 @@ def runLoad (orig : Bool) (st pe sc cfg recs : String) : String :=
 def handle : List String → String
   | ["load", st, pe, sc, cfg, recs] => runLoad false st pe sc cfg recs
   | ["loadorig", st, pe, sc, cfg, recs] => runLoad true st pe sc cfg recs
+  | ["read", st, pe, sc, cfg, recs, xy, sls] => runRead st pe sc cfg recs xy sls
   | ["volnos", sl] =>
       match parseIntList? sl with
       | some sl => showList (volNumbers sl)
